@@ -101,6 +101,7 @@ func checkC08(w *World, c *Check, tier string) {
 	c.Trusted = []string{"go/types type checker and types.SizesFor(gc, arch)", "go/ssa builder (x/tools v0.29.0)", "apcheck c08.go"}
 	checkReflectFallback(w, c)
 	checkViewAliases(w, c)
+	checkViewsOfCopies(w, c)
 	sites := findCastSites(w, c)
 	c.stat("cast_sites", len(sites))
 	c.stat("architectures", len(gcArches))
@@ -370,9 +371,8 @@ func checkViewAliases(w *World, c *Check) {
 		if rn == nil || rn.Obj().Pkg() != w.Types {
 			continue
 		}
-		if _, isStruct := rn.Underlying().(*types.Struct); !isStruct {
-			continue
-		}
+		// (also the list views — ToItemCollection hands out the address of the list field of a collection struct: an arm
+		// that returns a detached list for some values, e.g. an empty page, loses every Append made through the view)
 		// pointer cases: comma-ok assertions of the parameter to *S
 		type pcase struct {
 			ptr ssa.Value
@@ -514,4 +514,80 @@ func notDerivedFromPointer(v, p ssa.Value, depth int, seen map[ssa.Value]bool) s
 		}
 	}
 	return "it is " + shortVal(v) + ", which is not derived from the given pointer"
+}
+
+// checkViewsOfCopies (C08.viewcopy): a callback that WRITES through the typed view it is handed (the decoders'
+// `OnObject(x, func(o *Object) error { return unmapObjectProperties(mm, o) })`) must be given a view of the value
+// itself. When the item handed to the On* helper is a struct VALUE obtained by dereferencing a pointer
+// (`OnIntransitiveActivity(*q, …)`), the helper's value case views a private copy: every property the callback decodes
+// is lost, silently. Read-only callbacks (the encoders, which hold values) are not concerned; which callbacks write is
+// taken from the write-effect summaries of C12.
+func checkViewsOfCopies(w *World, c *Check) {
+	eff := computeEffects(w)
+	n, nw := 0, 0
+	perFn := map[string]int{}
+	for _, f := range w.Funcs {
+		for _, call := range callsIn(f) {
+			h := call.Common().StaticCallee()
+			if h == nil || !w.InPkg(h) || len(call.Common().Args) != 2 || h.Signature.Params().Len() != 2 {
+				continue
+			}
+			cbT, ok := types.Unalias(h.Signature.Params().At(1).Type()).Underlying().(*types.Signature)
+			if !ok || cbT.Params().Len() != 1 {
+				continue
+			}
+			if _, isPtr := types.Unalias(cbT.Params().At(0).Type()).Underlying().(*types.Pointer); !isPtr {
+				continue
+			}
+			if _, isIface := types.Unalias(h.Signature.Params().At(0).Type()).Underlying().(*types.Interface); !isIface {
+				continue
+			}
+			n++
+			// does the callback write through its parameter?
+			var g *ssa.Function
+			switch x := unwrap(call.Common().Args[1]).(type) {
+			case *ssa.MakeClosure:
+				g = x.Fn.(*ssa.Function)
+			case *ssa.Function:
+				g = x
+			}
+			if g == nil {
+				continue
+			}
+			sum := eff.sum[g]
+			if sum == nil || sum.writes&paramBit(0) == 0 {
+				continue
+			}
+			nw++
+			perFn[funcName(f)]++
+			key := fmt.Sprintf("%s:%s#%d", funcName(f), h.Name(), perFn[funcName(f)])
+			// the item: a struct value loaded through a pointer?
+			mi, isMI := call.Common().Args[0].(*ssa.MakeInterface)
+			copied := false
+			if isMI {
+				if _, isStruct := types.Unalias(mi.X.Type()).Underlying().(*types.Struct); isStruct {
+					if ld, isLd := mi.X.(*ssa.UnOp); isLd && ld.Op == token.MUL {
+						if _, fromPtr := types.Unalias(ld.X.Type()).Underlying().(*types.Pointer); fromPtr {
+							if _, isAlloc := ld.X.(*ssa.Alloc); !isAlloc {
+								copied = true
+							} else if al := ld.X.(*ssa.Alloc); len(storesTo(al)) == 1 {
+								// a spilled value parameter/receiver is the value itself; a local holding *p is a copy
+								if inner, ok2 := storesTo(al)[0].Val.(*ssa.UnOp); ok2 && inner.Op == token.MUL {
+									copied = true
+								}
+							}
+						}
+					}
+				}
+			}
+			if copied {
+				c.bad("C08.viewcopy", key, w.InstrPos(call), fmt.Sprintf("%s hands %s a struct value obtained by dereferencing a pointer, and the callback writes through the view it gets: the helper views a private copy, so everything the callback sets is lost (the pointer itself must be handed over)", funcName(f), h.Name()))
+			} else {
+				c.ok("C08.viewcopy", key, w.InstrPos(call), "the writing callback views the value itself")
+			}
+		}
+	}
+	c.stat("view_helper_calls", n)
+	c.stat("view_helper_calls_with_writing_callback", nw)
+	c.floor("C08.viewcopy", 30)
 }
